@@ -336,3 +336,18 @@ Proof.
   pose proof (open_part2_ok (seg_open_f f 0) m [] es 0 Hes) as H2.
   cbn [recs map concat app] in H2. rewrite (@len_nil Z) in H2. exact H2.
 Qed.
+
+(** the complete write (k = len b + 16) is exactly the appended segment *)
+Lemma torn_image_full l1 l2 m b :
+  torn_image (sd (rep l1 l2 m)) b (len b + 16) = sd (rep l1 (l2 ++ [b]) m).
+Proof.
+  unfold rep. cbn [sd]. unfold torn_image.
+  pose proof (len_nonneg b).
+  rewrite (app_assoc (recs l1) (recs l2)). rewrite !len_app, len_enc8.
+  replace (len (recs l1) + len (recs l2) + 8 - 8) with (len (recs l1 ++ recs l2)) by (rewrite len_app; lia).
+  rewrite take_app_exact by reflexivity. rewrite (drop_app_exact (recs l1 ++ recs l2)) by reflexivity.
+  destruct (len b + 16 <? 8) eqn:E; [lia|]. rewrite app_nil_r.
+  rewrite take_all by (rewrite !len_app, !len_enc8; lia).
+  rewrite recs_app. cbn [recs map concat]. rewrite app_nil_r. unfold rec.
+  rewrite <- !app_assoc. reflexivity.
+Qed.
